@@ -3,18 +3,14 @@
    (normalize, ts_normalize_char) are built on the tables and dispatch REGENERATED from parse.py / parse.ts on every run. *)
 From Coq Require Import NArith ZArith List Bool Lia.
 Import ListNotations.
-Require Import Base Lex Jamo SpecC01.
+Require Import Base Num Lex Jamo SpecC01 Skeleton.
 Require GenParse GenTS.
 Open Scope N_scope.
 
 (* every one of the 1,114,112 code points normalises (after NFD) to what the specification assigns to it;
    `free` = the twelve unassigned code points U+D7A4..U+D7AF, on which the specification is silent *)
 Theorem normalize_char_is_spec : forall c, c < 0x110000 -> free c = false -> collapse (normalize c) = spec_char c.
-Proof.
-  intros c Hc Hf. assert (H : ok c = true).
-  { destruct (N.lt_ge_cases c 0x10000) as [Lo|Hi]; [apply (sweep_spec 0x10000 ok); [vm_compute; reflexivity | exact Lo] | apply high_is_separator; exact Hi]. }
-  unfold ok in H. rewrite Hf in H. simpl in H. unfold leqb in H. destruct (list_eq_dec _ _ _); congruence.
-Qed.
+Proof. exact Skeleton.normalize_is_spec. Qed.
 Print Assumptions normalize_char_is_spec.
 
 (* the TypeScript port: every UTF-16 code unit *)
@@ -40,3 +36,30 @@ Theorem table_words_wellformed :
   forallb word_ok (GenParse.T_U1100 ++ GenParse.T_JAMO ++ GenParse.T_U3165 ++ GenParse.T_UA960) = true.
 Proof. vm_compute. reflexivity. Qed.
 Print Assumptions table_words_wellformed.
+
+(* ---- whole texts (any length): the words of the tokenizer are the maximal consonant runs of the normalised character stream ---- *)
+Theorem stream_is_flat_map text : stream text = flat_map normalize (text ++ [10]).
+Proof. exact (Skeleton.stream_is_flat_map text). Qed.
+Print Assumptions stream_is_flat_map.
+Theorem tokenize_words text : map fst (tokenize text) = words (stream text).
+Proof. exact (Skeleton.tokenize_words text). Qed.
+Print Assumptions tokenize_words.
+(* ... which are the words of the SPECIFIED consonants of its characters: vowels, tone marks, finals contribute nothing, every non-Hangul character
+   separates, every ieung / hieuh starts a new word (all of that is inside spec_char) *)
+Theorem tokens_are_spec_words text : assigned (text ++ [10]) -> map fst (tokenize text) = words (flat_map spec_char (text ++ [10])).
+Proof. exact (Skeleton.tokens_are_spec_words text). Qed.
+Print Assumptions tokens_are_spec_words.
+(* any two texts with the same skeleton have the same words ... *)
+Theorem skeleton_determines_words t1 t2 : assigned (t1 ++ [10]) -> assigned (t2 ++ [10]) ->
+  words (flat_map spec_char (t1 ++ [10])) = words (flat_map spec_char (t2 ++ [10])) -> map fst (tokenize t1) = map fst (tokenize t2).
+Proof. exact (Skeleton.skeleton_determines_words t1 t2). Qed.
+Print Assumptions skeleton_determines_words.
+(* ... and parse to the same trees up to source spans, or are rejected for the same reason *)
+Theorem skeleton_determines_tree t1 t2 : assigned (t1 ++ [10]) -> assigned (t2 ++ [10]) ->
+  words (flat_map spec_char (t1 ++ [10])) = words (flat_map spec_char (t2 ++ [10])) ->
+  match parse_text t1, parse_text t2 with
+  | inl a1, inl a2 => map erase a1 = map erase a2
+  | inr (e1, _), inr (e2, _) => e1 = e2
+  | _, _ => False end.
+Proof. exact (Skeleton.skeleton_determines_tree t1 t2). Qed.
+Print Assumptions skeleton_determines_tree.
